@@ -38,7 +38,9 @@ RULE = ('image case = one generated header (5 zenithal projections, CRPIX inside
         'without a BLANK card and blank pixels; reference values = the input as astropy reads it back); an evaluation '
         'is one output pixel compared with the oracle; non-trivial = the pixel is judged '
         '(stable cell, finite input) in an image that has both inside and outside pixels; table case = one table and '
-        'one region through mask_table / mask_catalog / --maskcat, an evaluation is one row; distinct = (case hash, '
+        'one region through mask_table / mask_catalog / --maskcat (default and explicit column names, also tables with '
+        'extra columns named like the coordinate columns up to case - ra/RA/Ra, dec/DEC/Dec - before or after them, '
+        'holding other positions), an evaluation is one row; distinct = (case hash, '
         'pixel or row)')
 ASSUMPTIONS = ['oracle WCS: FITS paper II zenithal projections implemented geometrically (refs/wcs_zenithal.py), '
                'checked in every case against astropy.wcs all-corner and random pixels at origin 0 to 1e-9 deg',
@@ -64,7 +66,7 @@ MIN_COUNTERS = {'pixels_judged': 200000, 'pixels_expected_blank': 20000, 'pixels
                 'images_with_boundary': 40, 'cube_planes_compared': 10, 'rows_judged': 20000,
                 'rows_expected_removed': 2000, 'rows_expected_kept': 2000, 'rows_nonfinite': 200,
                 'empty_tables': 4, 'catalog_files': 10, 'integer_stored_files': 20, 'images_with_off_sky_pixels': 40, 'pixels_off_sky': 20000,
-                'complementarity_off_sky_pixels': 20000, 'big_plane_images': 3, 'noncontiguous_planes': 100, 'byteswapped_planes': 20,
+                'complementarity_off_sky_pixels': 20000, 'big_plane_images': 3, 'tables_with_case_variant_columns': 100, 'noncontiguous_planes': 100, 'byteswapped_planes': 20,
                 'parent_pixels_outside_view_compared': 10000, 'cli_runs': 2, 'complementarity_pixels': 200000}
 
 EPS = 1e-7          # degrees, undetermined band around a cell edge (DESIGN section 1 rule 2, section 5 C10)
@@ -311,6 +313,22 @@ def cases(seed, tier):
         g = _image_geometry(rng, shape=shp)
         out.append({'kind': 'file', 'geom': g, 'region': _region_spec(rng, g), 'dtype': str(rng.choice(['f4', 'f8'])),
                     'dims': dims, 'cli': bool(rng.random() < 0.15), 'seed': [seed, 'file', i]})
+    # tables carrying extra columns whose names differ from the coordinate columns only in case
+    for i, sch in enumerate(CASE_SCHEMES):
+        out.append({'kind': 'table', 'n': 120, 'special': 'mixed', 'depth': 8, 'cols': sch, 'seed': ['t', 'casecols', i]})
+        for j, fmt in enumerate(('csv', 'vot', 'fits')):
+            out.append({'kind': 'catalog', 'n': 90, 'special': 'mixed', 'fmt': fmt, 'depth': 8, 'cols': sch,
+                        'cli': bool((i + j) % 2), 'seed': ['t', 'casecols', i, fmt]})
+    rcc = rng_for(seed, 'c10-case-columns', tier)
+    for i in range(60 if tier == 'quick' else 900):
+        sch = str(rcc.choice(CASE_SCHEMES))
+        if i % 2:
+            out.append({'kind': 'table', 'n': int(rcc.integers(12, 600)), 'special': 'mixed', 'depth': int(rcc.integers(4, 12)),
+                        'cols': sch, 'seed': [seed, 'casecols-table', i]})
+        else:
+            out.append({'kind': 'catalog', 'n': int(rcc.integers(12, 300)), 'special': 'mixed',
+                        'fmt': str(rcc.choice(['csv', 'vot', 'fits'])), 'depth': int(rcc.integers(4, 12)), 'cols': sch,
+                        'cli': bool(rcc.random() < 0.4), 'seed': [seed, 'casecols-cat', i]})
     rlay = rng_for(seed, 'c10-layouts', tier)
     for i in range(200 if tier == 'quick' else 3000):
         g = _image_geometry(rlay)
@@ -992,16 +1010,49 @@ def _table_rows(rng, n, special, desc):
     return ra, np.clip(dec, -90, 90)
 
 
+CASE_SCHEMES = ('case:ra,dec:RA,DEC:after', 'case:ra,dec:RA,DEC:before', 'case:ra,dec:RA,DEC:after:explicit',
+                'case:RA,DEC:ra,dec:after', 'case:RA,DEC:ra,dec:before', 'case:Ra,Dec:ra,dec,RA,DEC:after',
+                'case:Ra,Dec:RA,DEC,ra,dec:before', 'case:ra,dec:Ra,Dec,RA,DEC:before',
+                'case:ra,DEC:RA,dec:after', 'case:RAJ2000,DEJ2000:raj2000,dej2000,Raj2000,DeJ2000:after')
+
+
+def _col_scheme(cols):
+    """names of the coordinate columns to ask for, extra columns whose names differ from them only in case (holding
+    different positions), where those extra columns sit, and whether the names are passed explicitly"""
+    if cols == 'std':
+        return {'racol': 'ra', 'deccol': 'dec', 'decoys': [], 'first': False, 'explicit': False}
+    if cols == 'custom':
+        return {'racol': 'RAJ2000', 'deccol': 'DEJ2000', 'decoys': [], 'first': False, 'explicit': True}
+    parts = cols.split(':')
+    racol, deccol = parts[1].split(',')
+    return {'racol': racol, 'deccol': deccol, 'decoys': parts[2].split(','), 'first': parts[3] == 'before',
+            'explicit': (racol, deccol) != ('ra', 'dec') or 'explicit' in parts[4:]}
+
+
 def _make_table(rng, case, desc):
     from astropy.table import Table, MaskedColumn
     n = case['n']
     ra, dec = _table_rows(rng, n, case['special'], desc)
-    racol, deccol = ('ra', 'dec') if case['cols'] == 'std' else ('RAJ2000', 'DEJ2000')
+    sch = _col_scheme(case['cols'])
+    racol, deccol = sch['racol'], sch['deccol']
     flux = rng.normal(1, 1, n)
     if n:
         flux[rng.integers(0, n, max(1, n // 10))] = np.nan
     t = Table()
     t['id'] = np.arange(n, dtype=np.int64)
+
+    def add_decoys():
+        # columns named like the coordinate columns up to case, holding *other* positions (around the region too,
+        # so that using them changes the answer for many rows)
+        if not sch['decoys']:
+            return
+        r2 = rng_for(*case['seed'], 'decoys')
+        for name in sch['decoys']:
+            a, d = _table_rows(r2, n, 'decoy', desc) if n >= 12 else (r2.uniform(0, 360, n), r2.uniform(-80, 80, n))
+            is_ra = name.lower().startswith('r')
+            t[name] = np.where(np.isfinite(a), a, 0.0) if is_ra else np.where(np.isfinite(d), d, 0.0)
+    if sch['first']:
+        add_decoys()
     undefined = ~(np.isfinite(ra) & np.isfinite(dec))
     if case['special'] == 'masked' and n:
         m = rng.random(n) < 0.15
@@ -1016,6 +1067,8 @@ def _make_table(rng, case, desc):
     t['name'] = np.array(['src%05d' % i for i in range(n)], dtype='U8')
     t['flux'] = flux
     t['other_ra'] = rng.uniform(0, 360, n)          # a decoy column: must not be used when the custom names are given
+    if not sch['first']:
+        add_decoys()
     return t, racol, deccol, ra, dec, undefined
 
 
@@ -1110,7 +1163,9 @@ def _run_table(o, case, rng):
     snapshot = t.copy()
     kept = {}
     for negate in (False, True):
-        kw = {} if case['cols'] == 'std' else {'racol': racol, 'deccol': deccol}
+        kw = {'racol': racol, 'deccol': deccol} if _col_scheme(case['cols'])['explicit'] else {}
+        if _col_scheme(case['cols'])['decoys']:
+            o.count('tables_with_case_variant_columns')
         ok, res = _call(o, MIMAS.mask_table, 'mask_table(n=%d, negate=%s, cols=%s)' % (n, negate, case['cols']),
                         reg, t, negate=negate, **kw)
         if not ok:
@@ -1181,13 +1236,18 @@ def _run_catalog(o, case, rng):
             if case.get('cli'):
                 from AegeanTools.CLI import MIMAS as cli
                 argv = ['--maskcat', mim, infile, outfile] + (['--negate'] if negate else [])
-                if case['cols'] != 'std':
+                if _col_scheme(case['cols'])['explicit']:
                     argv += ['--colnames', racol, deccol]
                 ok, _ = _call(o, cli.main, 'MIMAS --maskcat ' + what, argv)
                 o.count('cli_runs')
-            else:
+            elif _col_scheme(case['cols'])['explicit']:
                 ok, _ = _call(o, MIMAS.mask_catalog, 'mask_catalog ' + what, mim, infile, outfile, negate=negate,
                               racol=racol, deccol=deccol)
+            else:
+                ok, _ = _call(o, MIMAS.mask_catalog, 'mask_catalog(default column names) ' + what, mim, infile, outfile,
+                              negate=negate)
+            if _col_scheme(case['cols'])['decoys']:
+                o.count('tables_with_case_variant_columns')
             o.count('catalog_files')
             if not ok:
                 o.n_eval += 1
